@@ -76,6 +76,19 @@ SITES = {
   ("search_position_passed_by_value", "internal/search/search.go", r"func \(s \*Search\) StartSearch\(p position\.Position, sl Limits\)",
    [r"go s\.run\(&p, &sl\)"], []),
  ],
+ # ---------------- C06: what ends a line inside the tree (the game-tree model has exactly these leaves)
+ "C06": [
+  ("root_child_is_draw_only_by_repetition_or_clock", "internal/search/alphabeta.go", r"func \(s \*Search\) rootSearch\(",
+   [r"if s\.checkDrawRepAnd50\(p, 2\)\s*\{\s*value = ValueDraw", r"\}\s*else\s*\{"], []),
+  ("search_child_is_draw_only_by_repetition_or_clock", "internal/search/alphabeta.go", r"func \(s \*Search\) search\(",
+   [r"p\.DoMove\(move\)", r"if s\.checkDrawRepAnd50\(p, 2\)\s*\{\s*value = ValueDraw", r"\}\s*else\s*\{"], []),
+  ("qsearch_child_is_draw_only_in_check_by_repetition_or_clock", "internal/search/alphabeta.go", r"func \(s \*Search\) qsearch\(",
+   [r"p\.DoMove\(move\)", r"if hasCheck && s\.checkDrawRepAnd50\(p, 2\)\s*\{\s*value = ValueDraw", r"\}\s*else\s*\{\s*value = -s\.qsearch\(p, ply\+1, -beta, -alpha, isPV\)"], []),
+  ("draw_test_is_repetition_or_clock", "internal/search/search.go", r"func \(s \*Search\) checkDrawRepAnd50\(",
+   [r"if p\.CheckRepetitions\(i\) \|\| p\.HalfMoveClock\(\) >= 100\s*\{\s*return true\s*\}\s*return false"], []),
+  ("leaf_is_evaluation_or_quiescence", "internal/search/alphabeta.go", r"func \(s \*Search\) search\(",
+   [r"if depth == 0 \|\| ply >= MaxDepth\s*\{\s*return s\.qsearch\(p, ply, alpha, beta, isPV\)"], []),
+ ],
  # ---------------- C07: terminal classification
  "C07": [
   ("futility_counts_pruned_moves", "internal/search/alphabeta.go", r"func \(s \*Search\) search\(",
